@@ -2688,3 +2688,51 @@ pub mod cviewfx2 {
         }
     }
 }
+
+// ---------------------------------------------------------------- R-PARALLEL.build / R-MARKCOUNT
+pub mod markfx {
+    pub trait Link: Copy + PartialEq { const DEL: Self; }
+    impl Link for u32 { const DEL: u32 = u32::MAX; }
+    pub struct Ent<L> { pub key: u64, pub link: L }
+    pub struct BadMap<L: Link> { pub entries: Vec<Ent<L>>, pub cache: Option<Vec<u64>>, pub dead: usize, pub reuse: bool, pub free: Vec<usize> }
+    impl<L: Link> BadMap<L> {
+        pub fn bad_build(&mut self) {
+            let mut c = Vec::with_capacity(self.entries.len());
+            for e in &self.entries {
+                if e.link != L::DEL { c.push(e.key.wrapping_mul(31)); }
+            }
+            self.cache = Some(c);
+        }
+        pub fn bad_free(&mut self, i: usize) {
+            self.dead += 1;
+            if self.reuse {
+                self.entries[i].link = L::DEL;
+                self.free.push(i);
+            }
+        }
+    }
+    pub struct OkMap<L: Link> { pub entries: Vec<Ent<L>>, pub cache: Option<Vec<u64>>, pub dead: usize, pub reuse: bool, pub free: Vec<usize> }
+    impl<L: Link> OkMap<L> {
+        pub fn ok_build(&mut self) {
+            let mut c = Vec::with_capacity(self.entries.len());
+            for e in &self.entries {
+                let h = if e.link != L::DEL { e.key.wrapping_mul(31) } else { 0 };
+                c.push(h);
+            }
+            self.cache = Some(c);
+        }
+        pub fn ok_free(&mut self, i: usize) {
+            self.entries[i].link = L::DEL;
+            self.dead += 1;
+            if self.reuse { self.free.push(i); }
+        }
+        fn count(&mut self, i: usize) { self.dead += 1; if self.reuse { self.free.push(i); } }
+        pub fn ok_remove(&mut self, i: usize) -> bool {
+            if i >= self.entries.len() { return false; }
+            self.mark(i);
+            self.count(i);
+            true
+        }
+        fn mark(&mut self, i: usize) { self.entries[i].link = L::DEL; }
+    }
+}
